@@ -47,7 +47,11 @@ def main():
         paths = meta.get("demo_path_in_repo")
         if isinstance(paths, str):
             paths = [paths]
-        files = sorted(os.listdir(demo_dir))
+        for rel, tgt in (meta.get("demo_map") or {}).items():
+            os.makedirs(os.path.dirname(os.path.join(wt, tgt)), exist_ok=True)
+            shutil.copy(os.path.join(demo_dir, rel), os.path.join(wt, tgt))
+            demos.append(tgt)
+        files = sorted(f for f in os.listdir(demo_dir) if os.path.isfile(os.path.join(demo_dir, f)))
         for f in files:
             tgt = None
             for p in (paths or []):
